@@ -16,6 +16,7 @@
      Store   subroutine  `set R0 x; set R1 i; store R0 @addr[R1]`
      RetReg  subroutine  `ret_reg r`
      RetArr  subroutine  `ret_arr @addr`
+     ResetMem SharedMemoryManager.reset_memories() is called behind the controllers' back [environment]
      Reserve the network stack takes a communication qubit from the executor's
              pool (_get_unused_physical_qubit)                     [environment]
      Keep    a create-and-keep response is delivered for a receive request of one
@@ -207,14 +208,15 @@ Inductive op :=
 | RetReg (nd app : Z) (r : reg)
 | RetArr (nd app addr : Z)
 | Reserve (nd : Z)
-| Keep (nd app v qa ra : Z) (info : list Z).
+| Keep (nd app v qa ra : Z) (info : list Z)
+| ResetMem.                                    (* SharedMemoryManager.reset_memories(): process-wide, external *)
 
 Definition op_pid (o : op) : option pid :=
   match o with
   | Init nd a _ | Stop nd a | QAlloc nd a _ | QFree nd a _ | SetReg nd a _ _
   | NewArr nd a _ _ | Store nd a _ _ _ | RetReg nd a _ | RetArr nd a _
   | Keep nd a _ _ _ _ => Some (nd, a)
-  | Reserve _ => None
+  | Reserve _ | ResetMem => None
   end.
 
 Definition op_node (o : op) : Z :=
@@ -222,6 +224,7 @@ Definition op_node (o : op) : Z :=
   | Init nd _ _ | Stop nd _ | QAlloc nd _ _ | QFree nd _ _ | SetReg nd _ _ _
   | NewArr nd _ _ _ | Store nd _ _ _ _ | RetReg nd _ _ | RetArr nd _ _
   | Keep nd _ _ _ _ _ | Reserve nd => nd
+  | ResetMem => 0
   end.
 
 Definition put_app (s : state) (k : pid) (a : appst) : state :=
@@ -387,6 +390,7 @@ Definition step (s : state) (o : op) : state * outcome :=
           | _, _, _, _ => (s, Fault EMalformed)
           end
       end
+  | ResetMem => (mkSt (apps s) (used s) (resv s) [], Done)
   end.
 
 Fixpoint run (s : state) (h : list op) : state :=
@@ -421,12 +425,13 @@ Definition used_exact (s : state) : Prop :=
 Definition resv_fresh (s : state) : Prop :=
   forall nd p, In (nd, p) (resv s) -> ~ mapped s nd p.
 
-(* the SharedMemoryManager holds exactly the keys of the registered applications *)
-Definition registry_exact (s : state) : Prop :=
-  forall k, In k (shreg s) <-> app_of s k <> None.
+(* the SharedMemoryManager holds keys of registered applications only (an external
+   SharedMemoryManager.reset_memories() may have dropped entries of running applications) *)
+Definition registry_sound (s : state) : Prop :=
+  forall k, In k (shreg s) -> app_of s k <> None.
 
 Definition Inv (s : state) : Prop :=
-  keys_unique s /\ injective s /\ used_exact s /\ resv_fresh s /\ registry_exact s.
+  keys_unique s /\ injective s /\ used_exact s /\ resv_fresh s /\ registry_sound s.
 
 (* environment contract: the physical qubit named by a keep response is one the network
    stack may use for a delivery: either it was reserved from this executor's pool
